@@ -237,6 +237,24 @@ func TestVerifState(t *testing.T) {
 				shadow, _ = New(root2, NewDatabase(disk2))
 			}
 		}
+		if s == 0 {
+			// the fork block that switches empty-account deletion on: accounts that are empty in the committed state (created before
+			// the fork) are only READ afterwards - by the shadow, and by a twin - and must survive the first commit with deletion on
+			both(func(x *StateDB) { x.SetBalance(sAddrs[4], big.NewInt(0)) })
+			emitOp("setbalance", map[string]interface{}{"a": aid(4)})
+			both(func(x *StateDB) { x.CreateAccount(sAddrs[3]) })
+			emitOp("createaccount", map[string]interface{}{"a": aid(3)})
+			commitPoint("commit", false)
+			shadow.Exist(sAddrs[4])
+			shadow.GetBalance(sAddrs[3])
+			shadow.GetNonce(sAddrs[4])
+			both(func(x *StateDB) { x.AddBalance(sAddrs[1], big.NewInt(3)) })
+			emitOp("addbalance", map[string]interface{}{"a": aid(1), "v": 3})
+			commitPoint("commit", true)
+			// the same instance commits again with nothing pending
+			st.Exist(sAddrs[4])
+			commitPoint("intermediate", true)
+		}
 		if s == 1 {
 			// the history of known finding D14, always exercised: an existing empty account, a zero-value touch inside a
 			// snapshot, revert, then a real change
